@@ -453,7 +453,9 @@ impl Sender {
                         let shift = if ctx.ch.chance("op.arg.packedshift", 1, 2) { 16 } else { 8 };
                         let cand = pl as i64 + ((ptype as i64 - type_id as i64) << shift);
                         let bound = (self.chunk.max(1) as i64).saturating_mul(70_000).min(16_777_215);
-                        if cand >= 0 && cand <= bound {
+                        // (type ids far apart would make megabyte messages the rule: keep to
+                        // differences of a few units, which is where csid-sharing types sit)
+                        if cand >= 0 && cand <= bound && (cand - pl as i64).abs() <= 4 * 65_536 {
                             len = cand as usize;
                             ctx.probe("a.type_length_packed_coincidence");
                         }
